@@ -149,7 +149,7 @@ def gen_case(seed, tier, prop):
             elif k == "tryfin":
                 st["eid"] += 1
                 out.append(["tryfin", body(depth + 1, groups, scopes, budget, tid),
-                            rng.choice(["shield_sleep", "reraise_cp", "raise", "shield_cp"] + (["group_raise"] * 2 if prop == "C04" else [])
+                            rng.choice(["shield_sleep", "reraise_cp", "raise", "shield_cp"] + (["group_raise", "group_raise", "group_foreign"] if prop == "C04" else [])
                                        + (["started_twice"] * 2 if prop == "C07" else [])),
                             rng.choice(DUR[:4]), st["eid"]])
             elif k == "wait":
@@ -202,6 +202,8 @@ class SCRun:
         self.viol = []
         self.notes = Counter()
         self.active = {}                # sid -> CancelScope / ('H', handle)  (polled)
+        self.foreign = set()            # ids of CancelledError objects raised by the program itself (not AnyIO's)
+        self.foreign_keep = []
         self.scopes = {}                # sid -> CancelScope (ever created, for cancel/shield statements)
         self.groups = {}                # gid -> live task group
         self.group_chain = {}           # gid -> chain (innermost first) seen by members
@@ -490,6 +492,15 @@ class SCRun:
                 self.rec("raise", tid, eid=eid)
                 self.faults["raise_group_with_cancellation"] += 1
                 raise BaseExceptionGroup("cleanup failed during cancellation", [exc, Boom(eid)])
+            elif kind == "group_foreign":
+                # the group also carries a cancellation that is NOT AnyIO's (a bare CancelledError, as a natively
+                # cancelled future or foreign code produces): no scope may ever absorb that one
+                fc = CancelledError()
+                self.foreign.add(id(fc))
+                self.foreign_keep.append(fc)
+                self.rec("raise", tid, eid=eid)
+                self.faults["raise_group_with_foreign_cancellation"] += 1
+                raise BaseExceptionGroup("cleanup failed during cancellation", [exc, fc, Boom(eid)])
             raise
 
     async def do_scope(self, tid, sid, opts, sb, chain):
@@ -530,10 +541,11 @@ class SCRun:
         pe = self.eff(chain, seq)
         shielded = self.shield_at(sid, seq)
         is_cancel = isinstance(inner, CancelledError)
-        if isinstance(inner, BaseExceptionGroup) and any(isinstance(l, CancelledError) for l in leaves(inner)):
-            # mixed group: the cancellation leaves are what can be absorbed
+        own_kind = lambda l: isinstance(l, CancelledError) and id(l) not in self.foreign      # an AnyIO cancellation
+        if isinstance(inner, BaseExceptionGroup) and any(own_kind(l) for l in leaves(inner)):
+            # mixed group: the AnyIO cancellation leaves are what can be absorbed
             is_cancel = True
-            absorbed = not any(isinstance(l, CancelledError) for l in leaves(escaped))
+            absorbed = not any(own_kind(l) for l in leaves(escaped))
         else:
             absorbed = is_cancel and escaped is None
         if is_cancel:
@@ -555,10 +567,13 @@ class SCRun:
                 if escaped is not inner:
                     self.v("C04.d", f"task {tid}: scope {sid} did not pass {inner!r} through (got {escaped!r})")
             else:
-                want = [l for l in leaves(inner) if not isinstance(l, CancelledError)]
-                got = [l for l in leaves(escaped) if not isinstance(l, CancelledError)]
+                want = [l for l in leaves(inner) if not own_kind(l)]
+                got = [l for l in leaves(escaped) if not own_kind(l)]
                 if sorted(map(id, want)) != sorted(map(id, got)):
-                    self.v("C04.d", f"task {tid}: scope {sid} changed the non-cancellation leaves of an exception group")
+                    lost = [l for l in want if id(l) not in set(map(id, got))]
+                    self.v("C04.d", f"task {tid}: scope {sid} changed the leaves of an exception group that are not AnyIO "
+                                    f"cancellations: {lost!r} did not pass through"
+                                    + (" (a foreign CancelledError was absorbed)" if any(id(l) in self.foreign for l in lost) else ""))
         if all(self.eff(chain, q) is False for q in range(enter_seq, post["seq"] + 1)):
             if task.cancelling() - self.native_pending(task) != c0:
                 self.v("C05.cancelling", f"task {tid}: after leaving scope {sid} (no enclosing scope effectively cancelled) "
